@@ -120,3 +120,120 @@ def rb_layout(c):
     except RAISES:
         return 'raise'
     return [_s(v) for v in out]
+
+
+# ------------------------------------------------------------------ background layers (direct calls)
+
+class _Rec:
+    """records add_pattern arguments; everything else is a no-op returning another recorder"""
+    def __init__(self, log, ctm):
+        self._log, self.ctm = log, ctm
+        self.id = 'x0'
+        self.page_rectangle = (0, 0, 1000, 1000)
+
+    def add_pattern(self, *args):
+        self._log.append(('pattern', args))
+        return _Rec(self._log, self.ctm)
+
+    def add_group(self, *args):
+        return _Rec(self._log, self.ctm)
+
+    def transform(self, *args, **kw):
+        self._log.append(('transform', args, kw))
+
+    def __getattr__(self, name):
+        return lambda *a, **k: None
+
+
+def bg_layer(c):
+    """c: iw ih ir, size ('cover'|'contain'|[sw, sh] with None=auto or (kind, val)), pw ph, px py (kind,val), right,
+    bottom, rx ry, paw pah (painting size), ox oy (positioning origin)"""
+    from weasyprint.layout import background
+    from weasyprint.css.properties import Dimension
+    from weasyprint import draw
+    from weasyprint.matrix import Matrix
+    def dim(v):
+        return Dimension(Fraction(v[1]), 'px' if v[0] == 'px' else '%')
+    pw, ph, paw, pah = (Fraction(c[k]) for k in ('pw', 'ph', 'paw', 'pah'))
+    ox, oy = Fraction(c['ox']), Fraction(c['oy'])
+    box = SimpleNamespace(
+        style={'font_size': 16},
+        border_box_x=lambda: ox - 3, border_box_y=lambda: oy - 4, border_width=lambda: paw, border_height=lambda: pah,
+        padding_box_x=lambda: ox, padding_box_y=lambda: oy, padding_width=lambda: pw, padding_height=lambda: ph,
+        rounded_border_box=lambda: 'rbb', rounded_padding_box=lambda: 'rpb', rounded_content_box=lambda: 'rcb')
+    size = c['size'] if isinstance(c['size'], str) else tuple('auto' if v is None else dim(v) for v in c['size'])
+    position = ('right' if c['right'] else 'left', dim(c['px']), 'bottom' if c['bottom'] else 'top', dim(c['py']))
+    image = _image(c)
+    image.draw = lambda *a: None
+    try:
+        layer = background.layout_background_layer(
+            box, object(), 1, image, size, 'border-box', (c['rx'], c['ry']), 'padding-box', position, 'scroll')
+    except RAISES:
+        return 'raise'
+    if layer.image is None:
+        return 'unused'
+    assert layer.positioning_area == (ox, oy, pw, ph) and tuple(layer.painting_area) == (ox - 3, oy - 4, paw, pah)
+    out = {'layer': [_s(v) for v in (*layer.size, *layer.position)], 'draw': None}
+    log = []
+    draw.draw_background_image(_Rec(log, Matrix()), layer, 'auto')
+    pats = [a for a in log if a[0] == 'pattern']
+    if pats:
+        (x, y, w, h, rw, rh, matrix), = [p[1] for p in pats]
+        assert (x, y) == (0, 0) and (w, h) == tuple(layer.size)
+        out['draw'] = [_s(rw), _s(rh), _s(matrix[2][0] - ox), _s(matrix[2][1] - oy)]
+    return out
+
+
+# ------------------------------------------------------------------ Stream.add_image / _use_references
+
+def add_images(c):
+    """c['calls']: list of (image index, interpolate, ratio) ; c['ids']: list of id strings.
+    returns names returned, final _images as list of (name, image index, interpolate, sorted ratios), XObject keys"""
+    from weasyprint.pdf.stream import Stream
+    import pydyf
+    images = {}
+    resources = pydyf.Dictionary({'XObject': pydyf.Dictionary()})
+    stream = Stream(None, (0, 0, 10, 10), resources, images, False)
+    imgs = [SimpleNamespace(id=i, n=n) for n, i in enumerate(c['ids'])]
+    names = []
+    for k, interp, ratio in c['calls']:
+        names.append(stream.add_image(imgs[k], bool(interp), Fraction(ratio)))
+    final = [[name, d['image'].n, bool(d['interpolate']), sorted(str(r) for r in d['dpi_ratios'])]
+             for name, d in images.items()]
+    return {'names': names, 'images': final, 'xobjects': list(resources['XObject'].keys()),
+            'none': all(v is None for v in resources['XObject'].values())}
+
+
+def use_refs(c):
+    """c['dicts']: list of lists of image keys: several resource dictionaries (page, groups, patterns) referring to
+    images by key; run _use_references over each in turn; returns per key how many x objects were built and how
+    many objects were added to the pdf, and whether all dictionaries point to the same reference."""
+    from weasyprint.pdf import _use_references
+    import pydyf
+    built = {}
+    class Img:
+        def __init__(self, key):
+            self.key = key
+        def get_x_object(self, interpolate, dpi_ratio):
+            built[self.key] = built.get(self.key, 0) + 1
+            return pydyf.Stream([b''], extra=pydyf.Dictionary({'key': self.key}))
+    keys = sorted({k for d in c['dicts'] for k in d})
+    images = {k: {'image': Img(k), 'interpolate': True, 'dpi_ratios': {1}, 'x_object': None} for k in keys}
+    pdf = pydyf.PDF()
+    n0 = len(pdf.objects)
+    dicts = []
+    for d in c['dicts']:
+        res = pydyf.Dictionary({'XObject': pydyf.Dictionary({k: None for k in d})})
+        _use_references(pdf, res, images)
+        dicts.append(res)
+    added = {}
+    for o in pdf.objects[n0:]:
+        k = getattr(o, 'extra', {}).get('key')
+        added[k] = added.get(k, 0) + 1
+    refs = {}
+    same = True
+    for res in dicts:
+        for k, v in res['XObject'].items():
+            if refs.setdefault(k, v) != v:
+                same = False
+    return {'built': built, 'added': added, 'same': same, 'keys': keys}
